@@ -77,6 +77,7 @@ def handle (line : String) : String :=
     let o := parseOp opS
     let i := parseOp implS
     if o.cmd != "rk" then "bad-op" else
+    if implS == "hang" || implS == "crash" then s!"run did not complete: {implS} (no progress: a writer, a key exchange loop or a read loop is blocked forever)" else
     if o.str "closekex" == "1" then
       -- Close() while a key exchange is open and writers are parked on the full queue:
       -- Close returns, every parked writer is released with an error, nothing of the application follows our KEXINIT
